@@ -216,6 +216,21 @@ CHECKS.update({
     ),
 })
 
+CHECKS.update({
+    "C17": (
+        "exploration",
+        "enumerator",
+        "exhaustive enumeration on a real connected APIClient: every state type and every sequence of <=2 (all types) / <=3 messages delivered "
+        "as real frames; every interleaving of bounded multi-chunk camera streams over up to 3 keys (multinomial, incl. unfinished images); "
+        "every sequence of <=3 messages x unsubscribe position (between chunks and from inside a handler) for each subscription kind; every "
+        "voice-assistant request sequence up to depth 3/4 x start-handler behaviour x optional handlers x unsubscribe position",
+        "All interleavings of the bounded streams are executed against the real client; callbacks are compared with a reference computed "
+        "from the stream, converted values with C14's oracle.",
+        BASE,
+        "DESIGN.md §3 C17",
+    ),
+})
+
 NOT_APPLICABLE: dict[str, str] = {}
 
 
